@@ -222,30 +222,37 @@ func c10Listener(stream []byte) (handled [][3]int64, err error) {
 
 // c10BadBodies: the (key, version, body) triples of the stream's frames that the kmsg decoder rejects
 // (each frame parsed separately with the real ParseRequestHeader / ParseRequest, under recover).
-func c10BadBodies(stream []byte) (bad [][3]any) {
-	rd := bytes.NewReader(stream)
+func c10BadBodies(stream []byte) (bad [][3]any, maxAnnounced int64) {
+	pos := 0
 	for {
-		f := func() (f *protocol.Frame) {
-			defer func() { _ = recover() }()
-			f, _ = protocol.ReadFrame(rd)
-			return f
-		}()
-		if f == nil {
-			return bad
+		if len(stream)-pos < 4 {
+			return bad, maxAnnounced
 		}
-		h := c10ParseHeader(f.Payload)
+		l := int64(int32(binary.BigEndian.Uint32(stream[pos:])))
+		if l < 0 {
+			return bad, maxAnnounced
+		}
+		if l > maxAnnounced {
+			maxAnnounced = l // ReadFrame allocates this many bytes before it reads the payload
+		}
+		if int64(len(stream)-pos-4) < l {
+			return bad, maxAnnounced
+		}
+		payload := stream[pos+4 : pos+4+int(l)]
+		pos += 4 + int(l)
+		h := c10ParseHeader(payload)
 		if h.panicked || h.err != nil {
-			return bad
+			return bad, maxAnnounced
 		}
-		q := c10ParseRequest(f.Payload)
+		q := c10ParseRequest(payload)
 		if q.panicked {
-			return bad
+			return bad, maxAnnounced
 		}
 		if q.err != nil {
 			if c10ErrClass(q.err) == 6 {
-				bad = append(bad, [3]any{int64(h.h.APIKey), int64(h.h.APIVersion), append([]byte{}, f.Payload[len(f.Payload)-h.bodyLen:]...)})
+				bad = append(bad, [3]any{int64(h.h.APIKey), int64(h.h.APIVersion), append([]byte{}, payload[len(payload)-h.bodyLen:]...)})
 			}
-			return bad
+			return bad, maxAnnounced
 		}
 	}
 }
@@ -690,6 +697,11 @@ func c10GenConn(r *vRand) c10Case {
 		}
 		s = append(s, fr...)
 	}
+	if _, announced := c10BadBodies(s); announced > 1<<24 && !(vTier() == "thorough" && r.Chance(20)) {
+		// mis-framing (a frame cut short and followed by more bytes) made some later bytes look like a huge size
+		// field: keep such streams rare (thorough tier only) — each costs an allocation of that size in ReadFrame
+		return c10GenConn(r)
+	}
 	return c10Case{Kind: "conn", Class: class, Bytes: s}
 }
 
@@ -819,7 +831,8 @@ func TestVerifC10(t *testing.T) {
 	connN := 0
 	runConn := func(cs c10Case) {
 		var badBodies [][3]any
-		done, pre := c10Timed(c10SoftDeadline(), func() { badBodies = c10BadBodies(cs.Bytes) })
+		var announced int64
+		done, pre := c10Timed(c10SoftDeadline(), func() { badBodies, announced = c10BadBodies(cs.Bytes) })
 		if !done {
 			slow("connection stream of "+fmt.Sprint(len(cs.Bytes))+" bytes ("+cs.Class+")", pre, false)
 			return
@@ -827,9 +840,22 @@ func TestVerifC10(t *testing.T) {
 		if pre > time.Second {
 			slow("connection stream of "+fmt.Sprint(len(cs.Bytes))+" bytes ("+cs.Class+")", pre, true)
 		}
-		// the loop parses each frame once more: "did not return" is judged against the measured parse time
-		deadline := 30*time.Second + 4*pre
+		// ReadFrame allocates (and the runtime zeroes) the announced frame size — up to 2 GiB for 4 bytes from the
+		// client — before reading the payload: slow under load, but it returns. The quick tier does not run such
+		// streams (the generator avoids them; a replayed one is recorded and skipped), the thorough tier does.
+		if announced > 1<<26 && vTier() != "thorough" {
+			rep.Hist("big-frame-skipped")
+			rep.Notes = append(rep.Notes, fmt.Sprintf("connection stream (%s) announces a frame of %d MiB: ReadFrame allocates the announced size before reading (memory/CPU cost chosen by the client, outside C10's statement); not run in the quick tier", cs.Class, announced>>20))
+			return
+		}
+		// "did not return" is judged against the measured parse time and the announced allocation
+		deadline := 30*time.Second + 4*pre + time.Duration(announced>>20)*150*time.Millisecond
+		t0 := time.Now()
 		handled, consumed, panicked, msg := c10Conn(cs.Bytes, deadline)
+		if d := time.Since(t0); d > 5*time.Second && msg == "" && !panicked {
+			rep.Hist("slow-connection")
+			rep.Notes = append(rep.Notes, fmt.Sprintf("connection stream (%s, largest announced frame %d MiB): handleConnection returned after %.1f s", cs.Class, announced>>20, d.Seconds()))
+		}
 		if panicked {
 			key := "panic:connection"
 			if strings.Contains(msg, "slice bounds out of range") {
